@@ -238,11 +238,41 @@ def judge_program(asm, acc, m, tup, kw, alias=False):
         core.add_viol(acc, 'one-line program %r -> %s decodes to %r, named %r' % ((pre + line).replace('\n', ' ; '), out.hex(), dec, exp), case, {})
 
 
+def fractional_case(asm, acc, rng, m):
+    """an immediate whose expression has a fractional value (`4095 / 2`, `31.5`) names no integer at all: no field represents it"""
+    fmt = operands.FORMATS[m]
+    pos = [k for k, kind in enumerate(fmt) if isinstance(kind, tuple) or kind in ('upper', 'cupper', 'nzshamt', 'shamt', 'uimm5')]
+    if not pos:
+        return
+    tup = []
+    for k, kind in enumerate(fmt):
+        if is_reg_kind(kind):
+            tup.append(8 + rng.randrange(8))
+        elif k == pos[-1]:
+            lo, hi, scale = imm_bounds(m, kind)
+            n = rng.choice([2 * hi + 1, 2 * lo + 1, 2 * rng.randrange(lo, hi) + 1, 1, 3, 2 * (hi + 1) + 1])
+            tup.append(rng.choice(['%d / 2' % n, '%d/2' % n, '%s' % (n / 2), '%d * 0.5' % n, '(%d + 0.25)' % (n // 2)]))
+        else:
+            lo, hi, scale = imm_bounds(m, kind)
+            tup.append(max(lo, min(hi, 0)) // scale * scale or (scale if lo <= scale <= hi else lo))
+    line = prog_line(m, tup, None)
+    acc['n'] += 1
+    acc['ctr']['prog_fractional'] += 1
+    o = monitors.observe(asm, line, tap=False)
+    if o.ok:
+        core.add_viol(acc, 'one-line program %r (an operand with a fractional value) produced output %s' % (line, o.out.hex()),
+                      {'kind': 'frac', 'line': line}, {'out': o.out.hex()})
+    else:
+        acc['ntkeys'].add(core.ckey('frac', line))
+
+
 def prog_shard(asm, acc, sh, deadline):
     rng = random.Random('c06-prog-%d-%d' % (sh['seed'], sh['idx']))
     for k in range(sh['count']):
         m = ALL[(k + sh['idx']) % len(ALL)]
         fmt = operands.FORMATS[m]
+        if k % 16 == 5 and m not in operands.ATOMICS:
+            fractional_case(asm, acc, rng, m)
         tup = []
         for pos, kind in enumerate(fmt):
             if is_reg_kind(kind):
@@ -416,6 +446,11 @@ def replay(case):
         dist_shard(asm, acc, {'cases': [{k: v for k, v in case.items() if k != 'kind'}]}, time.time() + 600)
     elif case['kind'] == 'enc':
         judge(asm, acc, case['m'], case['args'], case.get('kw') or None, set())
+    elif case['kind'] == 'frac':
+        acc['n'] += 1
+        o = monitors.observe(asm, case['line'], tap=False)
+        if o.ok:
+            core.add_viol(acc, 'one-line program %r (an operand with a fractional value) produced output %s' % (case['line'], o.out.hex()), case, {})
     else:
         judge_program(asm, acc, case['m'], case['args'], case.get('kw') or None, alias=case.get('alias', False))
     return acc
